@@ -163,3 +163,136 @@ Qed.
 
 Theorem canonicalize_offset l : offset (canonicalize l) = offset l.
 Proof. reflexivity. Qed.
+
+(* ================================================================================ *)
+(* The affine map enumerates all_values in row-major order                           *)
+(* ================================================================================ *)
+From Coq Require Import Znumtheory Permutation.
+
+Lemma tbound_ok s : stride_ok s -> exists a b, s = (Some a, Some b) /\ tbound s = b /\ 0 < b.
+Proof.
+  intros [a [b [-> Hb]]]. exists a, b. split; [reflexivity|]. split; [|exact Hb].
+  unfold tbound. cbn [sbound snd]. destruct (b =? 0) eqn:E; [lia|reflexivity].
+Qed.
+
+Lemma bounds_prod_cons s r : bounds_prod (s :: r) = tbound s * bounds_prod r.
+Proof. reflexivity. Qed.
+
+Lemma bounds_prod_pos t : tstride_ok t -> 0 < bounds_prod t.
+Proof.
+  induction 1 as [|s t Hs Ht IH]; [reflexivity|]. rewrite bounds_prod_cons.
+  destruct (tbound_ok s Hs) as [a [b [_ [-> Hb]]]]. nia.
+Qed.
+
+Lemma inner_addr_mod t : tstride_ok t -> forall P x, 0 < P -> (bounds_prod t | P) ->
+  inner_addr t (x mod P) = inner_addr t x.
+Proof.
+  induction 1 as [|s t Hs Ht IH]; intros P x HP Hdiv; [reflexivity|].
+  cbn [inner_addr].
+  pose proof (bounds_prod_pos (s :: t) (Forall_cons _ Hs Ht)) as Hpos.
+  rewrite <- (Zmod_div_mod (bounds_prod (s :: t)) P x Hpos HP Hdiv).
+  rewrite (IH P x HP); [reflexivity|].
+  destruct Hdiv as [k Hk]. rewrite bounds_prod_cons in Hk. exists (k * tbound s). lia.
+Qed.
+
+Lemma dim_addr_inner t x : tstride_ok t -> 0 <= x < bounds_prod t -> dim_addr t x = inner_addr t x.
+Proof.
+  intros Ht Hx. destruct t as [|s r]; [reflexivity|]. cbn [dim_addr inner_addr].
+  rewrite (Z.mod_small x) by lia. reflexivity.
+Qed.
+
+Lemma av_inner_addr t : tstride_ok t ->
+  av (map static_of t) = map (inner_addr t) (zrange (bounds_prod t)).
+Proof.
+  induction 1 as [|s t Hs Ht IH].
+  - reflexivity.
+  - destruct (tbound_ok s Hs) as [a [b [Es [Etb Hb]]]].
+    pose proof (bounds_prod_pos t Ht) as Hpr.
+    rewrite bounds_prod_cons, Etb. cbn [map av]. rewrite IH. subst s. cbn [static_of].
+    unfold stride_values. cbn [fst snd].
+    rewrite (zrange_mul b (bounds_prod t)) by lia.
+    rewrite flat_map_map, map_flat_map.
+    apply flat_map_ext_in. intros i Hi. apply in_zrange in Hi.
+    rewrite !map_map. apply map_ext_in. intros y Hy. apply in_zrange in Hy.
+    cbn [inner_addr static_of fst].
+    rewrite bounds_prod_cons. unfold tbound at 1. cbn [sbound snd].
+    replace (b =? 0) with false by lia.
+    assert (Hx : 0 <= i * bounds_prod t + y < b * bounds_prod t) by nia.
+    rewrite (Z.mod_small _ _ Hx).
+    replace ((i * bounds_prod t + y) / bounds_prod t) with i
+      by (apply (Z.div_unique_pos (i * bounds_prod t + y) (bounds_prod t) i y); lia).
+    rewrite <- (inner_addr_mod t Ht (bounds_prod t) (i * bounds_prod t + y)) by (try lia; exists 1; lia).
+    replace ((i * bounds_prod t + y) mod bounds_prod t) with y
+      by (apply (Z.mod_unique_pos (i * bounds_prod t + y) (bounds_prod t) i y); lia).
+    reflexivity.
+Qed.
+
+Theorem affine_map_all_values_gen ts : Forall tstride_ok ts ->
+  map (affine_addr ts) (row_major (map bounds_prod ts)) = av (map static_of (concat ts)).
+Proof.
+  induction 1 as [|t ts Ht Hts IH]; [reflexivity|].
+  cbn [map row_major concat]. rewrite map_app, av_app, <- IH, (av_inner_addr t Ht).
+  rewrite map_flat_map, flat_map_map. apply flat_map_ext_in. intros i Hi. apply in_zrange in Hi.
+  rewrite !map_map. apply map_ext. intros idx. cbn [affine_addr].
+  rewrite (dim_addr_inner t i Ht Hi). reflexivity.
+Qed.
+
+Theorem affine_map_all_values l : layout_ok l ->
+  map (affine_map_eval l) (row_major (shape_of l)) = all_values l.
+Proof.
+  intros H. unfold affine_map_eval, shape_of, all_values, all_strides.
+  rewrite all_values_of_av. apply affine_map_all_values_gen. exact H.
+Qed.
+
+(* membership in the box *)
+Lemma in_row_major shape idx :
+  In idx (row_major shape) <-> Forall2 (fun i n => 0 <= i < n) idx shape.
+Proof.
+  revert idx. induction shape as [|n shape IH]; intros idx; cbn [row_major].
+  - split; [intros [<-|[]]; constructor | intros H; inversion H; left; reflexivity].
+  - rewrite in_flat_map. split.
+    + intros [i [Hi Hin]]. apply in_map_iff in Hin as [r [<- Hr]]. apply in_zrange in Hi.
+      constructor; [exact Hi | apply IH, Hr].
+    + intros H. inversion H as [|i n' r shape' Hi Hr]; subst. exists i. split; [apply in_zrange, Hi|].
+      apply in_map. apply IH, Hr.
+Qed.
+
+(* canonicalize keeps the shape *)
+Lemma canon_r_bounds_prod t : tstride_ok t -> bounds_prod (ts_canon_r t) = bounds_prod t.
+Proof.
+  induction 1 as [|s t Hs Ht IH]; [reflexivity|].
+  pose proof (canon_r_ok t Ht) as Hok.
+  cbn [ts_canon_r fold_right]. fold (ts_canon_r t). unfold canon_step.
+  destruct (tbound_ok s Hs) as [a [b [-> [Etb Hb]]]].
+  rewrite (bounds_prod_cons (Some a, Some b) t), Etb, <- IH.
+  destruct (ts_canon_r t) as [|prev rest] eqn:E.
+  - rewrite bounds_prod_cons, Etb. reflexivity.
+  - cbn [sbound sstep fst snd].
+    inversion Hok as [|? ? Hp Hr]; subst. destruct (tbound_ok prev Hp) as [pa [pb [-> [Etp Hpb]]]].
+    cbn [sbound sstep fst snd].
+    destruct (optZ_eqb (Some b) (Some 1)) eqn:E1.
+    + apply optZ_eqb_eq in E1. inversion E1; subst. lia.
+    + destruct (truthy (Some pa) && truthy (Some pb) && optZ_eqb (Some (pa * pb)) (Some a) && truthy (Some b)).
+      * rewrite !bounds_prod_cons, Etp. unfold tbound. cbn [sbound snd].
+        replace (pb * b =? 0) with false by nia. lia.
+      * rewrite (bounds_prod_cons (Some a, Some b)), Etb. reflexivity.
+Qed.
+
+Theorem canonicalize_shape l : layout_ok l -> shape_of (canonicalize l) = shape_of l.
+Proof.
+  unfold layout_ok, shape_of, canonicalize. cbn [tstrides]. intros H. rewrite map_map.
+  apply map_ext_in. intros t Ht. rewrite ts_canonicalize_r. apply canon_r_bounds_prod.
+  rewrite Forall_forall in H. apply H, Ht.
+Qed.
+
+(* canonicalize keeps the index -> address function on the whole box *)
+Theorem canonicalize_affine_map l : layout_ok l ->
+  forall idx, Forall2 (fun i n => 0 <= i < n) idx (shape_of l) ->
+  affine_map_eval (canonicalize l) idx = affine_map_eval l idx.
+Proof.
+  intros H idx Hidx. apply in_row_major in Hidx.
+  pose proof (affine_map_all_values l H) as E1.
+  pose proof (affine_map_all_values _ (canonicalize_ok l H)) as E2.
+  rewrite canonicalize_shape, canonicalize_all_values in E2 by exact H.
+  rewrite <- E1 in E2. exact (ext_in_map E2 idx Hidx).
+Qed.
